@@ -111,6 +111,7 @@ def funcs():
     F = {  # name -> (args builder, callable, weight)
         "PRBS": (lambda I: (9, 100, 5), lambda a: dv.PRBS(*a), 3),
         "DAC-nrz": (lambda I: (I["bits"],), lambda a: dv.DAC(a[0], 0.1, 1.5, "nrz"), 3),
+        "DAC-rz": (lambda I: (I["bits"],), lambda a: dv.DAC(a[0], 0.2, 1.0, "rz"), 2),
         "DAC-gauss": (lambda I: (I["bits"],), lambda a: dv.DAC(a[0], 0.0, 1.0, "gaussian", m=2), 2),
         "DAC-bw": (lambda I: (I["bits"],), lambda a: dv.DAC(a[0], BW=0.75e9), 2),
         "LASER-cw": (lambda I: (I["t"],), lambda a: dv.LASER(a[0], 3.0, df=0.1e9), 2),
